@@ -15,6 +15,8 @@ for m in sorted(glob.glob('/verif/seeded/*/meta.json')):
             how = 'concrete replay' if c.get('concrete_input_found') else 'obligation only (no-failing-input-found)'
             keys = ', '.join(sorted({str(k) for k in c.get('violation_keys', [])})[:2])
             cell.append('%s: VIOLATION, %s [%s]' % (p, how, keys[:110]))
+        elif p != name.split('-')[0]:
+            cell.append('%s: silent (exit %s; also run, not the property the change was written against)' % (p, c.get('exit_code')))
         else:
             cell.append('%s: not flagged (exit %s)' % (p, c.get('exit_code')) if d.get('note') else '%s: **missed** (exit %s)' % (p, c.get('exit_code')))
     if d.get('note'):
